@@ -545,7 +545,7 @@ class Impl(object):
                 [101] + [x for e in connections for x in e],
                 [102] + unknown,
                 [103] + ro,
-                [104, t._readonlyNodesCounter],
+                [104, getattr(t, '_readonlyNodesCounter', -1)],
                 [105] + [x for e in last for x in e],
                 [106] + conns,
                 [107, len(w.conns)]]
@@ -827,7 +827,7 @@ def _gen_and_run(rng, seed, world, TR, ND, CF, n_events):
             if c is None:
                 return None
             box['c'] = c.cid
-            box['k'] = impl.t._readonlyNodesCounter
+            box['k'] = getattr(impl.t, '_readonlyNodesCounter', -1)
             return ('msg', c.cid, (1, 0), 0), 'handshake_readonly', None
 
         def m():
